@@ -15,6 +15,8 @@ import (
 	"github.com/prometheus/prometheus/model/labels"
 	"github.com/prometheus/prometheus/tsdb/chunkenc"
 	"google.golang.org/grpc"
+	"google.golang.org/grpc/codes"
+	"google.golang.org/grpc/status"
 
 	"github.com/thanos-io/thanos/pkg/info/infopb"
 	"github.com/thanos-io/thanos/pkg/store/labelpb"
@@ -134,14 +136,57 @@ type Entry struct {
 // means every entry as a single Series response.
 // Fault: "" none, "open" = Series() returns an error, "recv" = the At-th Recv (0-based) returns an error
 // instead of a frame (At = number of frames: instead of EOF), "hang" = the At-th Recv never delivers: it
-// blocks until the call's context is cancelled (by the proxy's frame timeout) and returns the context error,
-// as a gRPC stream does. "hang" is only meaningful with a response timeout and inside testing/synctest.
+// blocks until the call's context is cancelled (by the proxy's frame timeout) and returns the context error.
+// "hang" is only meaningful with a response timeout and inside testing/synctest.
+// Kind is the KIND of error value the store fails with (see errKinds / hangKinds): "" is the plain error
+// (open, recv) resp. the bare context error (hang) of an in-process client.
 type StoreSpec struct {
 	E     []Entry `json:"e"`
 	F     []int   `json:"f,omitempty"`
 	NoWRL bool    `json:"nowrl,omitempty"` // store cannot strip replica labels
 	Fault string  `json:"fault,omitempty"`
 	At    int     `json:"at,omitempty"`
+	Kind  string  `json:"kind,omitempty"`
+}
+
+// errKinds is the alphabet of error values an "open" or "recv" fault returns. Every one of them is a non-nil
+// error other than io.EOF, i.e. a failure of the store's stream (Store_SeriesClient.Recv: "It returns io.EOF
+// when the stream completes successfully. On any other error, the stream is aborted").
+//   - ""                 plain error (errors.Errorf), what an in-process client / a test mock returns
+//   - "grpc-canceled"    status code Canceled: what a real gRPC client stream returns when the call context was
+//     cancelled, and what grpc-go makes of a downstream handler that returns context.Canceled
+//   - "grpc-deadline"    status code DeadlineExceeded: the call's or the downstream's deadline expired
+//   - "grpc-unavailable" status code Unavailable: connection lost (grpc-go's message really ends in "EOF")
+//   - "grpc-aborted"     status code Aborted: what a downstream Thanos proxy returns under its own abort strategy
+//   - "ctx-canceled"     the bare context.Canceled sentinel (in-process client whose work was cancelled)
+//   - "ctx-deadline"     the bare context.DeadlineExceeded sentinel
+//   - "unexpected-eof"   io.ErrUnexpectedEOF: a truncated stream; not io.EOF
+var errKinds = []string{"", "grpc-canceled", "grpc-deadline", "grpc-unavailable", "grpc-aborted", "ctx-canceled", "ctx-deadline", "unexpected-eof"}
+
+// hangKinds: what a hanging Recv returns once the proxy has cancelled the call: "" the bare ctx.Err() (in-process
+// client), "grpc" the status error a real gRPC client stream makes of it (status.FromContextError: code Canceled).
+var hangKinds = []string{"", "grpc"}
+
+func mkErr(kind, what, name string) error {
+	switch kind {
+	case "":
+		return errors.Errorf("injected %s failure of %s", what, name)
+	case "grpc-canceled":
+		return status.Error(codes.Canceled, "context canceled")
+	case "grpc-deadline":
+		return status.Error(codes.DeadlineExceeded, "context deadline exceeded")
+	case "grpc-unavailable":
+		return status.Error(codes.Unavailable, "error reading from server: EOF")
+	case "grpc-aborted":
+		return status.Error(codes.Aborted, "receive series from downstream: injected")
+	case "ctx-canceled":
+		return context.Canceled
+	case "ctx-deadline":
+		return context.DeadlineExceeded
+	case "unexpected-eof":
+		return io.ErrUnexpectedEOF
+	}
+	panic("HARNESS-ERROR unknown error kind " + kind)
 }
 
 func (s StoreSpec) series(e Entry) *storepb.Series {
@@ -194,9 +239,7 @@ func (c *fakeStore) String() string                     { return c.name }
 func (c *fakeStore) Addr() (string, bool)               { return c.name, false }
 func (c *fakeStore) Matches([]*labels.Matcher) bool     { return true }
 
-func (c *fakeStore) errorf(what string) error {
-	return errors.Errorf("injected %s failure of %s", what, c.name)
-}
+func (c *fakeStore) errorf(what string) error { return mkErr(c.spec.Kind, what, c.name) }
 
 func (c *fakeStore) Series(ctx context.Context, _ *storepb.SeriesRequest, _ ...grpc.CallOption) (storepb.Store_SeriesClient, error) {
 	c.asked.Add(1)
@@ -210,6 +253,13 @@ func (c *fakeStore) Series(ctx context.Context, _ *storepb.SeriesRequest, _ ...g
 		st.err = c.errorf("recv")
 	case "hang":
 		st.hangAt = c.spec.At
+		switch c.spec.Kind {
+		case "":
+		case "grpc":
+			st.grpcCtxErr = true
+		default:
+			panic("HARNESS-ERROR unknown hang kind " + c.spec.Kind)
+		}
 	case "":
 	default:
 		panic("HARNESS-ERROR unknown fault " + c.spec.Fault)
@@ -232,6 +282,9 @@ type stream struct {
 	failAt int
 	hangAt int
 	err    error
+	// grpcCtxErr: report the cancellation of the call as a real gRPC client stream does (status code Canceled /
+	// DeadlineExceeded) instead of the bare context error
+	grpcCtxErr bool
 }
 
 func (s *stream) Recv() (*storepb.SeriesResponse, error) {
@@ -240,6 +293,9 @@ func (s *stream) Recv() (*storepb.SeriesResponse, error) {
 	}
 	if s.hangAt == s.i {
 		<-s.ctx.Done() // durably blocked inside the synctest bubble until the frame timeout cancels the call
+		if s.grpcCtxErr {
+			return nil, status.FromContextError(s.ctx.Err()).Err()
+		}
 		return nil, s.ctx.Err()
 	}
 	if s.i >= len(s.frames) {
